@@ -464,6 +464,21 @@ func (gb *gcpBalancer) getSubConnRoundRobin(ctx context.Context) *subConnRef {
 func (gb *gcpBalancer) bindSubConn(bindKey string, sc balancer.SubConn) {
 	gb.mu.Lock()
 	defer gb.mu.Unlock()
+	gb.bindSubConnLocked(bindKey, sc)
+}
+
+// bindSubConnRef binds the given affinity key to the current SubConn of the subConnRef.
+// The SubConn is read under the balancer mutex: if it were read before, a refresh
+// completing in between would leave the key bound to the replaced SubConn, which is
+// no longer in the pool, and calls for the key would wait forever.
+func (gb *gcpBalancer) bindSubConnRef(bindKey string, ref *subConnRef) {
+	gb.mu.Lock()
+	defer gb.mu.Unlock()
+	gb.bindSubConnLocked(bindKey, ref.subConn)
+}
+
+// Must be called holding the mutex lock.
+func (gb *gcpBalancer) bindSubConnLocked(bindKey string, sc balancer.SubConn) {
 	_, ok := gb.affinityMap[bindKey]
 	if !ok {
 		gb.affinityMap[bindKey] = sc
